@@ -82,6 +82,63 @@ def api_c_mode(m, k, group):
     return {"ddl": ddl, "output_mode": m, "got": r, "expected": "SimpleDDLParserException", "reproduced": True}
 
 
+def _near(i: int, style: int, pos: int):
+    """a spelling close to valid mode name #i that is not itself a valid name"""
+    n = VALID_MODES[i]
+    if style == 0:
+        return n.upper()
+    if style == 1:
+        return n.capitalize()
+    if style == 2:
+        p = pos % len(n)
+        return n[:p] + n[p].upper() + n[p + 1:]
+    if style == 3:
+        return n + " "
+    if style == 4:
+        return " " + n
+    if style == 5:
+        return n[:-1]
+    if style == 6:
+        return n + "s"
+    return None
+
+
+def c_mode_near(i: int, style: int, pos: int, k: int, group: bool) -> bool:
+    """
+    A near-miss of a valid mode name - other letter case (upper, Capitalized, one letter at a
+    symbolic position), a blank before / after, a missing or an extra last letter - and None are
+    unknown modes: run() raises SimpleDDLParserException naming every valid mode, whatever the
+    script yields.
+
+    pre: 0 <= i < 15 and 0 <= style <= 7 and 0 <= pos < 10
+    pre: 0 <= k <= 2
+    pre: _near(i, style, pos) not in VALID_MODES
+    post: _
+    """
+    m = _near(i, style, pos)
+    PARSER.parse_data = lambda: deepcopy(N_STMTS[k])
+    try:
+        PARSER.run(output_mode=m, group_by_type=group)
+    except SimpleDDLParserException as e:
+        return all(v in str(e) for v in VALID_MODES)
+    finally:
+        del PARSER.parse_data
+    return False
+
+
+def api_c_mode_near(i, style, pos, k, group):
+    from simple_ddl_parser import DDLParser
+    m = _near(i, style, pos)
+    ddl = ["GO", "CREATE SEQUENCE q INCREMENT 1;", "CREATE TABLE t (a int);"][k]
+    try:
+        r = DDLParser(ddl).run(output_mode=m, group_by_type=group)
+    except SimpleDDLParserException as e:
+        return {"reproduced": not all(v in str(e) for v in VALID_MODES), "message": str(e), "output_mode": m}
+    except Exception as e:
+        return {"ddl": ddl, "output_mode": m, "raised": f"{type(e).__name__}: {e}", "expected": "SimpleDDLParserException", "reproduced": True}
+    return {"ddl": ddl, "output_mode": m, "got": r, "expected": "SimpleDDLParserException", "reproduced": True}
+
+
 def c_valid_mode(i: int, k: int) -> bool:
     """
     Every documented mode name is accepted (no exception) whatever the script yields.
